@@ -42,3 +42,10 @@ func main() {
 		os.Exit(2)
 	}
 }
+
+// shimUnavailable ends the process with exit code 3: the command needs an add-only overlay shim that does not compile against the tree
+// under verification (its unexported target changed shape). The caller reports the check as inconclusive, never as a violation.
+func shimUnavailable(name string) {
+	os.Stdout.WriteString("SHIM-UNAVAILABLE " + name + "\n")
+	os.Exit(3)
+}
